@@ -218,7 +218,7 @@ func (w *World) grammar() (*Grammar, error) {
 		}
 		if gi := w.depthGuard(fn); gi != nil {
 			for _, c := range w.pkgCallees(fn) {
-				if c.Signature.Recv() != nil && c.Signature.Results().Len() == 1 && types.Identical(c.Signature.Results().At(0).Type(), g.NodeT) && g.levelShape(w, c) != nil {
+				if g.isNodeParser(c) && g.levelShape(w, c) != nil {
 					g.EntryLevel = c
 				}
 			}
@@ -493,7 +493,19 @@ func (w *World) isRunePredicate(f *ssa.Function) bool {
 	pure := true
 	eachInstr(f, false, func(_ *ssa.Function, in ssa.Instruction) {
 		switch x := in.(type) {
-		case *ssa.Store, *ssa.MapUpdate, *ssa.Send, *ssa.Go, *ssa.Defer:
+		case *ssa.Store:
+			// filling a local array (the argument list of a variadic call) is not an effect
+			local := false
+			switch a := x.Addr.(type) {
+			case *ssa.IndexAddr:
+				_, local = a.X.(*ssa.Alloc)
+			case *ssa.Alloc:
+				local = true
+			}
+			if !local {
+				pure = false
+			}
+		case *ssa.MapUpdate, *ssa.Send, *ssa.Go, *ssa.Defer:
 			pure = false
 		case ssa.CallInstruction:
 			if c := x.Common().StaticCallee(); c != nil && w.inPkg(c) && c != f {
